@@ -245,6 +245,54 @@ impl Net {
                 n
             })
         };
+        // preempt_us=<p> pause_us=<q>: about every p microseconds one thread of the server's runtime (its workers and its
+        // blocking pool, where the store calls run) is interrupted wherever it is and sleeps >= q microseconds there
+        let preempt_us = *kv.get("preempt_us").unwrap_or(&0);
+        let pause_us = *kv.get("pause_us").unwrap_or(&20);
+        let injector = if preempt_us > 0 {
+            crate::conc::install_pause_handler(pause_us);
+            let stop = stop.clone();
+            Some(std::thread::spawn(move || {
+                let pid = unsafe { libc::getpid() };
+                let mut x = seed ^ 0x5851_F42D_4C95_7F2D | 1;
+                let mut tids: Vec<i32> = vec![];
+                let (mut n, mut round) = (0u64, 0u64);
+                while !stop.load(Ordering::SeqCst) {
+                    if round % 64 == 0 {
+                        tids.clear();
+                        if let Ok(rd) = std::fs::read_dir("/proc/self/task") {
+                            for e in rd.flatten() {
+                                let comm = std::fs::read_to_string(e.path().join("comm")).unwrap_or_default();
+                                if comm.starts_with("tokio-runtime-w") {
+                                    if let Ok(t) = e.file_name().to_string_lossy().parse::<i32>() {
+                                        tids.push(t);
+                                    }
+                                }
+                            }
+                        }
+                    }
+                    round += 1;
+                    x ^= x << 13;
+                    x ^= x >> 7;
+                    x ^= x << 17;
+                    if !tids.is_empty() {
+                        let t = tids[(x % tids.len() as u64) as usize];
+                        // a thread of the blocking pool may have ended meanwhile: tgkill then fails with ESRCH, harmlessly
+                        unsafe {
+                            libc::syscall(libc::SYS_tgkill, pid as libc::c_long, t as libc::c_long, libc::SIGUSR1 as libc::c_long);
+                        }
+                        n += 1;
+                    }
+                    let until = Instant::now() + Duration::from_micros(preempt_us / 2 + x % preempt_us.max(1));
+                    while Instant::now() < until {
+                        std::hint::spin_loop();
+                    }
+                }
+                n
+            }))
+        } else {
+            None
+        };
         let mut joins = vec![];
         // all clients send their first command together, after everybody has connected
         let start = Arc::new(std::sync::Barrier::new(clients as usize));
@@ -339,6 +387,9 @@ impl Net {
         stop.store(true, Ordering::SeqCst);
         let n = merger.join().unwrap_or(0);
         hist.push(format!("m merges - - 0 0 {}", n));
+        if let Some(j) = injector {
+            hist.push(format!("i preemptions - - 0 0 {}", j.join().unwrap_or(0)));
+        }
         hist.join(";")
     }
 
